@@ -477,6 +477,7 @@ func runStress(d Desc) mon.Result {
 	}
 	obs["stress_runs"] = 1
 	obs["stress_ops"] = obs["ops_enqueue"] + obs["ops_dequeue"] + obs["ops_dequeueall"] + obs["ops_requeue"] + obs["ops_depth_consumer"] + obs["ops_depth_producer"]
+	obs["stress_ops_without_empty_polls"] = obs["stress_ops"] - obs["ops_dequeue_nil"] - obs["ops_dequeueall_nil"]
 	nontrivial := obs["ops_requeue"] > 0 && obs["ops_dequeue_nil"]+obs["ops_dequeueall_nil"] > 0
 	for _, p := range []*party{&s.prod, &s.cons} {
 		if p.panicVal != nil {
